@@ -100,7 +100,9 @@ def run_once(scn, prefix=(), chooser=None):
         def maybe_fail(kind):
             if fault and fault[2] == kind and fault[0] == where["si"] and fault[1] == where["bi"]:
                 ctl.events.append(("fault", kind))
-                raise Marker(f"{kind} fault in session {fault[0]} batch {fault[1]}")
+                # optionally a fault that is not an `Exception` (KeyboardInterrupt-like)
+                raise (MarkerBase if len(fault) > 3 and fault[3] == "base" else Marker)(
+                    f"{kind} fault in session {fault[0]} batch {fault[1]}")
 
         for pos, s in enumerate(schd.samplers):
             def wrap(s=s, pos=pos):
@@ -138,7 +140,7 @@ def run_once(scn, prefix=(), chooser=None):
                 ctl.events.append(("session_start", si))
                 try:
                     cal.calibrate(nb)
-                except Marker:
+                except (Marker, MarkerBase):
                     ctl.events.append(("calibrate_raised", si))
                 left = {q.name: len(q.items) for q in ctl.queues if q.items}
                 alive = [p.name for p in ctl.parts if p.name != "main" and not p.finished]
@@ -158,6 +160,10 @@ def run_once(scn, prefix=(), chooser=None):
 
 
 class Marker(Exception):
+    pass
+
+
+class MarkerBase(BaseException):
     pass
 
 
@@ -209,11 +215,15 @@ def judge(scn, ctl, outcome, halton_pos):
     done = [b for b in batches if b[2]]
     if len(ran) != exp_ran or len(done) != exp_done:
         return ("C10/batches", f"{len(ran)} sampler runs / {len(done)} completed batches, expected {exp_ran} / {exp_done}"), sig
-    if ran and ran[0][1] != halton_pos:
-        return ("C10/bootstrap", f"first batch ran sampler {ran[0][1]}, bootstrap is {halton_pos}"), sig
+    # until a batch has completed (a bootstrap batch that failed is simply run again) the sampler is the bootstrap one
+    first_done = next((k for k, b in enumerate(batches) if b[2]), len(batches) - 1)
+    for b in range(0, first_done + 1):
+        if ran[b][1] != halton_pos:
+            return ("C10/bootstrap", f"sampler run {b} (no batch completed before it) used sampler {ran[b][1]}, bootstrap is "
+                    f"{halton_pos}"), sig
     # every later sampler is an (earlier, in-order) agent choice
     j = 0
-    for b in range(1, len(ran)):
+    for b in range(first_done + 1, len(ran)):
         ri, pos = ran[b]
         while j < len(pol) and not (pol[j][1] == pos and pol[j][0] < ri):
             if pol[j][0] >= ri:
@@ -223,7 +233,7 @@ def judge(scn, ctl, outcome, halton_pos):
             return ("C10/sampler-not-agent-choice", f"batch {b} ran sampler {pos}, which is not an in-order earlier choice of the "
                     f"agent (choices {[a for _, a in pol]})"), sig
         j += 1
-    chosen_done = [b for b in batches[1:] if b[2]]          # completed agent-chosen batches, in order
+    chosen_done = [b for b in batches[first_done + 1:] if b[2]]   # completed agent-chosen batches, in order
     exp_r = rewards(scn["losses"], len(done))               # the c-th completed batch consumed the c-th scripted loss
     if len(lrn) != len(chosen_done):
         return ("C10/learn-count", f"agent learned {len(lrn)} times for {len(chosen_done)} completed agent-chosen batches (learns "
@@ -337,11 +347,10 @@ def sampled_cases(draw):
            "alpha": draw(st.sampled_from([-1, 0.5])), "eps": draw(st.sampled_from([0.0, 0.3, 1.0])),
            "seed": draw(st.integers(0, 50))}
     if draw(st.integers(0, 3)) == 0:
-        # a batch that fails (exception out of a sampler or of the loss) - never the bootstrap batch itself
+        # a batch that fails (exception out of a sampler or of the loss), the bootstrap batch included
         si = draw(st.integers(0, len(sessions) - 1))
-        lo = 1 if si == 0 else 0
-        if sessions[si] - 1 >= lo:
-            scn["fault"] = [si, draw(st.integers(lo, sessions[si] - 1)), draw(st.sampled_from(["sampler", "loss"]))]
+        scn["fault"] = [si, draw(st.integers(0, sessions[si] - 1)), draw(st.sampled_from(["sampler", "loss"]))] + \
+            draw(st.sampled_from([[], [], ["base"]]))
     schedule = draw(st.lists(st.integers(0, 2), min_size=0, max_size=60))
     return {"sub": "sampled", "scenario": scn, "schedule": schedule}
 
@@ -375,9 +384,12 @@ def run(ctx: Ctx):
             # of that stream on thread timing (e.g. re-seeding racing with the first draw) shows in the sampler sequence
             if ok and not explore(ctx, scenario(sessions, agent=agent, losses=losses, eps=eps, seed=3 if eps == 1.0 else 1)):
                 ok = False
-    for sessions, fault in (([2, 1], [0, 1, "sampler"]), ([2, 1], [0, 1, "loss"]), ([1, 2], [1, 0, "loss"]), ([1, 2], [1, 1, "sampler"])):
+    # failing batches: a later batch of the first session, a batch of the second session, the bootstrap batch itself (the
+    # agent thread may not even have begun when the session is torn down), and a fault that is not an `Exception`
+    for sessions, fault in (([2, 1], [0, 1, "sampler"]), ([2, 1], [0, 1, "loss"]), ([1, 2], [1, 0, "loss"]), ([1, 2], [1, 1, "sampler"]),
+                            ([1, 1], [0, 0, "loss"]), ([2], [0, 0, "sampler"]), ([1, 2], [1, 1, "loss", "base"])):
         if ok and not explore(ctx, scenario(sessions, fault=fault)):
             ok = False
-    ctx.exhaustive_axes[f"all schedules of {[(p[0], len(p[1])) for p in plan]} (session list, variants) + 4 scenarios with a "
+    ctx.exhaustive_axes[f"all schedules of {[(p[0], len(p[1])) for p in plan]} (session list, variants) + 7 scenarios with a "
                         "failing batch"] = ok
     drive(ctx, "sampled", sampled_cases(), check_sampled, ctx.n(1600, 40000))
